@@ -191,13 +191,14 @@ func (a *analysis) compute(v ssa.Value) pv {
 						break
 					}
 					if st, ok := in.(*ssa.Store); ok && (st.Addr == x.X ||
-						(rootAlloc(x.X) != nil && rootAlloc(st.Addr) == rootAlloc(x.X) && fieldPath(st.Addr) == fieldPath(x.X) && !strings.Contains(fieldPath(x.X), "[]"))) {
+						(a.rootOf(x.X) != nil && a.rootOf(st.Addr) == a.rootOf(x.X) && fieldPath(st.Addr) == fieldPath(x.X) && !strings.Contains(fieldPath(x.X), "[]"))) {
 						last = st
 					}
 					if _, isCall := in.(*ssa.Call); isCall && last != nil {
 						// a call in between may have written through an escaped pointer: keep the store only
-						// when the address is a non-escaping local (Alloc not marked Heap)
-						if al, ok := rootAlloc(x.X).(*ssa.Alloc); !ok || al.Heap {
+						// when the address is a non-escaping local (Alloc not marked Heap); an object freshly
+						// returned by a callee counts as escaping here
+						if al, ok := a.rootOf(x.X).(*ssa.Alloc); !ok || al.Heap {
 							last = nil
 						}
 					}
@@ -274,6 +275,30 @@ func (a *analysis) contentOf(al ssa.Value, path string) pv {
 		}
 	}
 	return r
+}
+
+// rootOf is rootAlloc extended to objects freshly allocated by a callee: a call whose return summary is
+// purely local memory (e.g. a constructor returning new(T)) is a root for the same-block store/load matching
+func (a *analysis) rootOf(v ssa.Value) ssa.Value {
+	for {
+		switch x := v.(type) {
+		case *ssa.Alloc, *ssa.MakeSlice, *ssa.MakeMap:
+			return v
+		case *ssa.Call:
+			if r := a.of(x); r.p == pLocal && len(r.params) == 0 {
+				return v
+			}
+			return nil
+		case *ssa.FieldAddr:
+			v = x.X
+		case *ssa.IndexAddr:
+			v = x.X
+		case *ssa.Slice:
+			v = x.X
+		default:
+			return nil
+		}
+	}
 }
 
 func rootAlloc(v ssa.Value) ssa.Value {
